@@ -90,6 +90,7 @@ inline uint64_t fnv1a(const std::string &s, uint64_t h = 1469598103934665603ull)
 // Sanitizer report flags (set by callbacks, turned into logical failures by the engine).
 struct SanFlags { int asan = 0, ubsan = 0, tsan = 0; std::string asan_text; bool expect_asan = false; };
 inline SanFlags &san() { static SanFlags f; return f; }
+inline int g_tsan_reports = 0;      // bumped by __tsan_on_report (atomically)
 
 struct Ctx {
 	Tape t;
@@ -163,7 +164,7 @@ struct Ctx {
 	void check_san(const char *prop) {
 		if(san().asan && !san().expect_asan) { san().asan = 0; fail(prop, "AddressSanitizer report: %s", san().asan_text.c_str()); }
 		if(san().ubsan) { san().ubsan = 0; fail(prop, "UndefinedBehaviorSanitizer report (see stderr of the replay)"); }
-		if(san().tsan) { san().tsan = 0; fail(prop, "ThreadSanitizer report (see stderr of the replay)"); }
+		if(int n_ = __atomic_exchange_n(&g_tsan_reports, 0, __ATOMIC_RELAXED)) { fail(prop, "%d ThreadSanitizer report(s): data race (see stderr of the replay)", n_); }
 	}
 };
 
@@ -194,7 +195,9 @@ extern "C" void frg_log(const char *) {}
 
 extern "C" void __asan_set_error_report_callback(void (*)(const char *)) __attribute__((weak));
 extern "C" void __ubsan_on_report(void) { verif::san().ubsan++; }
-extern "C" void __tsan_on_report(void *) { verif::san().tsan++; }
+// Called by TSan while it holds its report lock, possibly on several threads: it must not itself
+// contain anything TSan could report (a racy increment here re-enters the reporter and deadlocks).
+extern "C" __attribute__((no_sanitize("thread"))) void __tsan_on_report(void *) { __atomic_fetch_add(&verif::g_tsan_reports, 1, __ATOMIC_RELAXED); }
 // ASan and UBSan de-duplicate reports by program counter / source location when they run in
 // recover mode, which would make every later case (and therefore shrinking) blind to a defect
 // that was already reported once. They therefore halt: the process dies with the report, the
@@ -263,7 +266,9 @@ inline std::string json_escape(const std::string &s) {
 	return o;
 }
 
+inline bool g_main_finished = false;    // after main() the statistics objects are gone: the sanitizer death callback must not touch them
 inline void flush_stats() {
+	if(g_main_finished) return;
 	auto &c = config();
 	auto &s = stats();
 	if(c.out.empty()) return;
@@ -315,6 +320,7 @@ inline Outcome run_one(const uint32_t *p, size_t n) {
 	}
 	if(verif_case_reset) verif_case_reset();
 	san().asan = san().ubsan = san().tsan = 0; san().asan_text.clear(); san().expect_asan = false;
+	__atomic_store_n(&g_tsan_reports, 0, __ATOMIC_RELAXED);
 	Ctx c;
 	c.t.p = p; c.t.n = n;
 	Outcome o{0, "", "", ""};
@@ -330,7 +336,7 @@ inline Outcome run_one(const uint32_t *p, size_t n) {
 	} catch(std::exception &e) {
 		o.code = 1; o.prop = cfg.focus; o.msg = std::string("unexpected exception: ") + e.what();
 	}
-	if(o.code == 0 && (san().asan || san().ubsan || san().tsan)) {
+	if(o.code == 0 && (san().asan || san().ubsan || __atomic_load_n(&g_tsan_reports, __ATOMIC_RELAXED))) {
 		try { c.check_san(cfg.focus.c_str()); } catch(Fail &f) { o.code = 1; o.prop = f.prop; o.msg = f.msg; }
 	}
 	c.drop_arena();
@@ -452,6 +458,7 @@ inline int engine_main(int argc, char **argv) {
 		return 64;
 	}
 	flush_stats();
+	g_main_finished = true;
 	return rc;
 }
 
@@ -486,6 +493,7 @@ extern "C" int LLVMFuzzerTestOneInput(const uint8_t *data, size_t size) {
 }
 #endif
 #else
-int main(int argc, char **argv) { return verif::engine_main(argc, argv); }
+// _exit: the verdict is the exit status; sanitizer at-exit hooks (TSan's "reported N warnings" status) must not replace it
+int main(int argc, char **argv) { int rc = verif::engine_main(argc, argv); fflush(stdout); fflush(stderr); _exit(rc); }
 #endif
 #endif // VERIF_NO_MAIN
